@@ -379,8 +379,21 @@ def shiftRef (at_ : RunRef) (r : RunRef) : RunRef :=
 /-- `get_insertion_anchor` -/
 def insertionAnchor (s : Sess) (spans : List OSpan) (index : Nat) : Sess × Option RunRef :=
   let preceding := spans.filter (·.stop = index)
-  match preceding.getLast?.bind (·.sp.run) with
-  | some r => (s, some r)
+  let viaPreceding : Option (Sess × Option RunRef) :=
+    match preceding.getLast? with
+    | some o =>
+      match o.sp.run with
+      | some r =>
+        -- one line of a formatted run that goes on after a line break: the anchor is the part of the run
+        -- up to this line's end
+        if spans.any (fun o' => o'.sp.run == some r && o'.start > o.start) then
+          let (s', l, _) := s.splitRun r (offsetInRun spans o + o.sp.text.length)
+          some (s', some l)
+        else some (s, some r)
+      | none => none
+    | none => none
+  match viaPreceding with
+  | some res => res
   | none =>
     let containing := spans.filter fun o => o.start < index && index < o.stop
     let viaContaining : Option (Sess × Option RunRef) :=
@@ -823,15 +836,19 @@ def anchorReply (body : List Block) (parent new : Str) : List Block :=
         | .run r => runHasCref parent r
         | .ins _ ch => ch.any fun | .run r => runHasCref parent r | _ => false
         | _ => false
-      let newTop := [Node.ce new, Node.run (crefRun new)]
-      let newIns := [InsChild.ce new, InsChild.run (crefRun new)]
+      -- the reply's range end goes next to the parent's range end (same container) …
+      let b2 := (firstParaBlocks (insertAfterFirst (fun n => n = .ce parent) (fun c => c = .ce parent)
+        [Node.ce new] [InsChild.ce new]) b1).getD b1
+      -- … and its reference run behind the parent's reference run (or behind its own range end)
+      let refTop := [Node.run (crefRun new)]
+      let refIns := [InsChild.run (crefRun new)]
       let res :=
         if hasRef then
           firstParaBlocks (insertAfterFirst (fun n => match n with | .run r => runHasCref parent r | _ => false)
-            (fun c => match c with | .run r => runHasCref parent r | _ => false) newTop newIns) b1
+            (fun c => match c with | .run r => runHasCref parent r | _ => false) refTop refIns) b2
         else
-          firstParaBlocks (insertAfterFirst (fun n => n = .ce parent) (fun c => c = .ce parent) newTop newIns) b1
-      res.getD b1
+          firstParaBlocks (insertAfterFirst (fun n => n = .ce new) (fun c => c = .ce new) refTop refIns) b2
+      res.getD b2
 
 def Sess.applyAction (s : Sess) (a : Action) : Sess × Bool :=
   let (tid, isChange, isComment) := parseTarget a.target
